@@ -25,6 +25,9 @@ CHECKS = {
  "C05": ("atomic", "exhaustive product of the decoder's reachable state graph (explicit-state search of C04) x failure sites x continuations, plus every byte split point of every base picture through a growable source",
          "From every reachable decoder state (fixpoint graphs, both modes) every failure site is injected; whenever the call returns Err the complete decoder state (hooked key including the carried-over options), the most recent picture and the bits re-read from the same reader must be unchanged, a repeated failure must change nothing, and every continuation must equal a twin decoder that never saw the input. Every base picture is delivered in two parts at every byte boundary to one reader: the retry after appending must equal one-piece decoding, an early-ended success must equal the early-end model.",
          "Conditional on Err (the evidence lists how often each site failed); failure sites are a finite menu chosen to fail at every depth (header, macroblock header, block data, prediction); state key via the cfg-gated hook.", "3.5"),
+ "C06": ("headers", "exhaustive per-field and pairwise enumeration of header descriptions (each field over its whole range, all field pairs over boundary sets, a full cross of reduced domains, all bit phases x stuffing lengths, all inheritance subsets) against a header model",
+         "Each header is written from a field-level description by an independent bit writer and parsed by parser::decode_picture; the returned record is compared field by field with the description and a sentinel after the header pins the number of bits consumed. Sorenson: all versions, TRs, size codes, all 256x256 8-bit sizes, all 16-bit widths/heights, type x deblock x quantizer, PEI; H.263: every PTYPE/PLUSPTYPE/CPFMT/EPAR/CPCFC/ETR/UUI/SSS/ELNUM/RLNUM/RPSMF/TRP/BCI/TRB/DBQUANT/PEI field over its full range on three base headers with and without scalability, all 2^10 OPPTYPE mode patterns, all 512x512 size indications, marker bits, inheritance from every subset of OPPTYPE options; decoded pictures report their header.",
+         "The model follows H.263 clause 5.1 as transcribed in harness/src/refhdr.rs; constructs documented as unimplemented (RPRP, BCM, format change) may answer Err, ELNUM without PLUSPTYPE is not asserted.", "3.6"),
  "C07": ("yuv", "exhaustive enumeration of the finite input domain (2^24 colours x 8 code positions) against a fixed-point reference model",
          "Every one of the 16,777,216 (Y,Cb,Cr) triples is pushed through yuv420_to_rgba in every SIMD lane and every remainder slot, alone and among contrasting neighbours, and compared with a 16.16 model derived from the real BT.601 constants; the full result table is checked for monotonicity. The domain is finite, so this is a complete decision for the per-pixel formula.",
          "Trusts the model's derivation of the coefficients from the BT.601 reals and the C07 layout argument (7x1 pictures reach lanes 0..3 and remainder slots 0..2).", "3.7"),
